@@ -186,18 +186,28 @@ def r4(ctx):
     SEL = "store::util::LatestPerKeySelector"
     rows = {}
 
-    def run(entry_some, kept_some, same_key, ts_order):
+    def run(entry_some, kept_some, same_key, ts_order, tie=0):
+        """tie: how the pushed entry ranks against the kept one by what is left when the timestamps are equal (content hash, author)"""
         def oracle(kind, a, b2, site):
             sa, sb = str(a), str(b2)
             if kind in ("eq", "cmp"):
-                if "key" in sa and "key" in sb:
+                if "key" in sa and "key" in sb and "timestamp" not in sa:
                     return same_key if kind == "eq" else (0 if same_key else 1)
-                if "timestamp" in sa and "timestamp" in sb:
-                    o = {"Less": -1, "Equal": 0, "Greater": 1}[ts_order]
-                    if "new" in sa and "kept" in sb:
-                        return (o == 0) if kind == "eq" else o
+                if ("new" in sa and "kept" in sb) or ("kept" in sa and "new" in sb):
+                    ts = {"Less": -1, "Equal": 0, "Greater": 1}[ts_order]
+                    has_ts = "timestamp" in sa and "timestamp" in sb
+                    has_rest = any(w in sa and w in sb for w in ("hash", "author", "value", "record"))
+                    if has_ts and has_rest:
+                        o = ts if ts != 0 else tie
+                    elif has_ts:
+                        o = ts
+                    elif has_rest:
+                        o = tie
+                    else:
+                        return None
                     if "kept" in sa and "new" in sb:
-                        return (o == 0) if kind == "eq" else -o
+                        o = -o
+                    return (o == 0) if kind == "eq" else o
             return None
         heap = {"self": E.Adt(SEL, 0, {0: E.Some(E.Tok("kept")) if kept_some else E.NONE})}
         arg = E.Some(E.Tok("new")) if entry_some else E.NONE
@@ -227,7 +237,18 @@ def r4(ctx):
               "(pushed, kept[, key, cmp(new.ts,kept.ts)]) -> (emitted, kept afterwards): %s" % sorted(rows.items(), key=str), b.sp)
     eq = rows[("Some", "Some", "same key", "Equal")]
     ctx.check(eq in (("Continue", "Some(kept)"), ("Continue", "Some(new)")), "C05.R4", b.path, "equal-timestamps-keep-one", "%s" % (eq,), b.sp)
-    ctx.floor("C05.R4", 2)
+    # among equal timestamps the choice is a function of the two entries, not of which one the scan met first: an ascending and a
+    # descending scan push them in opposite orders and must end up with the same one (or the *set* a query returns depends on the
+    # direction once the emptiness / author filter is applied to the chosen entry)
+    try:
+        a = run(True, True, True, "Equal", tie=1)      # the pushed entry ranks above the kept one
+        b_ = run(True, True, True, "Equal", tie=-1)    # the same two entries met in the other order
+        oka = a == ("Continue", "Some(new)") and b_ == ("Continue", "Some(kept)")
+        det = "pushed ranks above kept -> %s; pushed ranks below kept -> %s; spec: the higher-ranking entry is kept either way" % (a, b_)
+    except E.Unsupported as e:
+        oka, det = False, "UNSUPPORTED-FORM: %s" % e
+    ctx.check(oka, "C05.R4", b.path, "equal-timestamps-choice-independent-of-scan-direction", det, b.sp)
+    ctx.floor("C05.R4", 3)
 
 
 def run_query(f, kind, rows, include_empty, offset, limit, selector=False):
@@ -252,8 +273,15 @@ def run_query(f, kind, rows, include_empty, offset, limit, selector=False):
             return None
         if k == "cmp":
             a, b = str(name), str(payload)
-            if a.startswith("timestamp(e") and b.startswith("timestamp(e"):
-                x, y = rows[digit(a)]["ts"], rows[digit(b)]["ts"]
+            ia, ib = digit(a), digit(b)
+            if ia is None or ib is None or "(e" not in a or "(e" not in b:
+                return None
+            has_ts = "timestamp(e" in a and "timestamp(e" in b
+            has_rest = any(w in a and w in b for w in ("hash(e", "author(e", "value(e", "record(e"))
+            # what is left to order two entries of a key by when their timestamps are equal (content hash, author): here the row number
+            x = (rows[ia]["ts"] if has_ts else 0, ia if has_rest else 0)
+            y = (rows[ib]["ts"] if has_ts else 0, ib if has_rest else 0)
+            if has_ts or has_rest:
                 return (x > y) - (x < y)
             return None
         if k != "call":
@@ -294,6 +322,8 @@ def run_query(f, kind, rows, include_empty, offset, limit, selector=False):
             return E.Tok("key(%s)" % names[0])
         if name == "timestamp" and names and _re.fullmatch(r"e\d+", names[0]):
             return E.Tok("timestamp(%s)" % names[0])
+        if name in ("content_hash", "author", "author_bytes", "record", "value") and names and _re.fullmatch(r"e\d+", names[0].strip("&*")):
+            return E.Tok("%s(%s)" % ("hash" if name == "content_hash" else ("author" if name.startswith("author") else name), names[0].strip("&*")))
         return None
     Q = E.struct(f, "store::Query", kind=E.Tok("kind"), filter_author=E.Tok("fa"), filter_key=E.Tok("fk"),
                  limit=(E.Some(E.Int(limit)) if limit is not None else E.NONE), offset=E.Int(offset),
@@ -336,7 +366,9 @@ def reference_query(kind, rows, include_empty, offset, limit, selector):
                 if st == "err":
                     out.append((st, i))
                 elif out and out[-1][0] == "ok" and rows[out[-1][1]]["key"] == rows[i]["key"]:
-                    if rows[i]["ts"] > rows[out[-1][1]]["ts"]:
+                    # the greatest timestamp; among equal ones a choice that does not depend on the order of the scan (the oracle
+                    # ranks such entries by their row number, standing for content hash / author)
+                    if (rows[i]["ts"], i) > (rows[out[-1][1]]["ts"], out[-1][1]):
                         out[-1] = (st, i)
                 else:
                     out.append((st, i))
